@@ -92,6 +92,52 @@ func TestVerifC02Seq(t *testing.T) {
 			s.stamp = i
 			s.mu.Unlock()
 			switch op[0] {
+			case "ovlms":
+				// ManualReader r: a Collect that has loaded the registered producer and is parked in an observable callback
+				// (inside pipeline.produce, BEFORE the aggregation); Add; Reader.Shutdown — it returns nil at once, it does not
+				// wait for the collection in flight (ManualLts.lean: load c, shutdown, produce c); released, the Collect
+				// completes and carries the Add: the history add, col r, rshut r.
+				r, j, a := atoi(op[1]), atoi(op[2]), atoi(op[3])
+				v, _ := strconv.ParseInt(op[4], 10, 64)
+				if r < len(s.readers) && s.ticks[r] == nil && !s.down[r] && cfg.cb {
+					g := c02NewGate()
+					s.cbHook.set(func() { close(g.parked); <-g.release })
+					done := make(chan struct{})
+					go func() { s.collect(i+1, r); close(done) }()
+					parked := false
+					select {
+					case <-g.parked:
+						parked = true
+					case <-done:
+					case <-time.After(20 * time.Second):
+						status(i+1, r, "hang")
+					}
+					if j < len(s.adders) {
+						s.adders[j](a, v)
+					}
+					if parked {
+						if err := s.readers[r].Shutdown(ctx); err != nil {
+							status(i+2, r, "shutdown-err")
+						}
+						close(g.release)
+					}
+					<-done
+					s.cbHook.set(nil)
+					if !parked {
+						_ = s.readers[r].Shutdown(ctx)
+					}
+					s.down[r] = true
+				} else {
+					if j < len(s.adders) {
+						s.adders[j](a, v)
+					}
+					if r < len(s.readers) {
+						s.collect(i+1, r)
+						_ = s.readers[r].Shutdown(ctx)
+						s.down[r] = true
+					}
+				}
+				i += 2
 			case "ovlts":
 				// Shutdown of periodic reader r started while its interval export is parked between collecting and exporting
 				// (fine-grained reader LTS: Shutdown waits for the run loop, `<-r.done`, before its final collect): on this
@@ -381,6 +427,17 @@ func TestVerifC02Seq(t *testing.T) {
 					ops = append(ops, []string{"tick", strconv.Itoa(pr)})
 				case 2:
 					ops = append(ops, []string{"col", strconv.Itoa(r.Intn(len(rs)))})
+				}
+			}
+			if c%3 == 1 {
+				// Shutdown of a ManualReader while one of its collections is in flight (parked in an observable callback)
+				for k, x := range rs {
+					if x[0] == 'm' {
+						a := add()
+						cfg.cb = true
+						ops = append(ops, []string{"ovlms", strconv.Itoa(k), a[1], a[2], a[3]})
+						break
+					}
 				}
 			}
 			if c%3 == 0 {
